@@ -282,6 +282,9 @@ def run(ctx):
     t0 = time.time()
     G.reset_names()
     items, ids = [], []
+    if G.perturb("chain"):     # self-test: falsify one observed staking total of the last case
+        gg = prods[0][-1]["blocks"][-1]["gov"]
+        gg["staking_total"] = str(int(gg["staking_total"]) + 1)
     for c, p in zip(cases, prods[0]):
         if "ghost_before" in c:
             continue
@@ -292,17 +295,18 @@ def run(ctx):
     model_diff = None
     if items:
         rc, out = ctx.coq_eval("chain_cases", D.chain_cases_file(items))
-        flat = " ".join(out.split())
-        m = re.search(r"MC = (\[.*?\]|nil) : list", flat)
-        if rc != 0 or not m:
-            model_diff = ("governance model could not be evaluated on the chain engine's observations", out[-2000:])
-        else:
-            bad = re.findall(r"\((\d+)%nat, (\d+)%nat\)", m.group(1))
-            if bad:
-                i, k = int(bad[0][0]), int(bad[0][1])
-                model_diff = ("block executor and governance model differ (%s of block %d)" % ("a transaction outcome" if k % 2 == 0 else "observables after connect", k // 2 + 1),
-                              {"case": D.strip(ids[i]), "block": k // 2 + 1, "n_differing_cases": len(bad),
-                               "produced": prods[0][cases.index(ids[i])]["blocks"][k // 2].get("gov")})
+        try:
+            if rc != 0:
+                raise RuntimeError(out[-2000:])
+            bad = G.parse_bad_list(out, "MC", r"\((\d+)(?:%nat)?, (\d+)(?:%nat)?\)")
+        except RuntimeError as ex:
+            model_diff = ("governance model could not be evaluated on the chain engine's observations", str(ex)[-2000:])
+            bad = []
+        if bad:
+            i, k = int(bad[0][0]), int(bad[0][1])
+            model_diff = ("block executor and governance model differ (%s of block %d)" % ("a transaction outcome" if k % 2 == 0 else "observables after connect", k // 2 + 1),
+                          {"case": D.strip(ids[i]), "block": k // 2 + 1, "n_differing_cases": len(bad),
+                           "produced": prods[0][cases.index(ids[i])]["blocks"][k // 2].get("gov")})
         evals += sum(len(c["blocks"]) for c in ids)
     phase["chain_vs_model"] = round(time.time() - t0, 1)
     ctx.cov["chain_cases_replayed_by_model"] = len(items)
@@ -320,15 +324,16 @@ def run(ctx):
 
     # ---------------------------------------------------------------- decide
     seen = set()
+    hard = False          # a failing input was reported as a violation
     for key, what, rep in known:
         if key not in seen:
             seen.add(key)
-            ctx.finding(key, what, rep)
+            hard |= bool(ctx.finding(key, what, rep))
     for what, rep in fails[:3]:
-        ctx.finding("C02:" + what.split(":")[0].replace(" ", "-")[:60], what, rep)
-    if model_diff and not fails:
+        hard |= bool(ctx.finding("C02:" + what.split(":")[0].replace(" ", "-")[:60], what, rep))
+    if model_diff and not hard:
         ctx.violation("correspondence broken: " + model_diff[0], {"correspondence": model_diff[0], "cases": model_diff[1]}, no_input=True)
-    if not pr["ok"] and not fails:
+    if not pr["ok"] and not hard:
         what = "proof obligation no longer checks: %s" % pr["broken"]
         rep = {"theorem_or_file": pr["broken"], "log": pr["log"][-3000:]}
         if failing_sites:
